@@ -762,12 +762,56 @@ class Repo:
         if isinstance(r, tuple) and r and r[0] == 'assign':
             _, mod, name = r
             self.consulted[mod.relpath] = mod.sha256
-            return self.fold(mod.assigns[name][-1], mod, None, None, d)
+            try:
+                return self.fold(mod.assigns[name][-1], mod, None, None, d)
+            except NotConst:
+                # a computed table (comprehension, dict(...), update of generated rows): propagate constants through its
+                # initialiser (peval.py); anything that is not fully constant stays NotConst
+                v = self._peval_module_value(mod, name)
+                if v is _NOVALUE:
+                    raise
+                return v
         if isinstance(r, tuple) and r and r[0] == 'classattr':
             _, c, attr = r
             self.consulted[c.module.relpath] = c.module.sha256
             return self.fold(c.attrs[attr], c.module, c, None, d)
         return r
+
+    def _peval_module_value(self, mod: Module, name: str):
+        from .peval import CannotEval, PEval, Raised, UNKNOWN, Tagged
+        if getattr(self, '_peval_busy', False):
+            return _NOVALUE
+        self._peval_busy = True
+        try:
+            try:
+                v = PEval(self).module_value(mod, name)
+            except (CannotEval, Raised, AnalysisError, RecursionError):
+                return _NOVALUE
+        finally:
+            self._peval_busy = False
+
+        def plain(x, depth=0):
+            if depth > 6:
+                raise ValueError
+            if x is UNKNOWN:
+                raise ValueError
+            if isinstance(x, Tagged):
+                return int(x)
+            if isinstance(x, (int, str, bytes, float, bool)) or x is None or isinstance(x, (ClassRef, FuncRef, StructVal, ExtRef, ModRef)):
+                return x
+            if isinstance(x, tuple):
+                return tuple(plain(y, depth + 1) for y in x)
+            if isinstance(x, list):
+                return [plain(y, depth + 1) for y in x]
+            if isinstance(x, (set, frozenset)):
+                return frozenset(plain(y, depth + 1) for y in x)
+            if isinstance(x, dict):
+                return {plain(k, depth + 1): plain(val, depth + 1) for k, val in x.items()}
+            raise ValueError
+        try:
+            return plain(v)
+        except ValueError:
+            return _NOVALUE
 
     def try_fold(self, e, m, cls=None, env=None, default=None):
         try:
@@ -779,6 +823,9 @@ class Repo:
         if isinstance(r, ClassRef):
             return self.cls(r.module, r.name)
         return None
+
+
+_NOVALUE = object()
 
 
 def _direct_defs(node) -> List[ast.FunctionDef]:
